@@ -1,2 +1,130 @@
-(* placeholder while the harness is brought up *)
-From TL Require Import Lib.Base Gen.IgnoreGen Model.PyStr Model.Ignore Model.IgnoreSpec Model.IgnoreRun Actual.IgnoreActual.
+(* Props/C04.v — property C04 (suppression directives silence exactly what they name).
+   Only statements closed by `exact <lemma>` and their Print Assumptions.
+   Model: Model/Ignore.v (should_ignore = IgnoreDirectiveParser.should_ignore_violation over the file's bytes, literals from
+   Gen/IgnoreGen.v); specification: Model/IgnoreSpec.v (abstract files, render, spec, the domain predicates). *)
+From TL Require Import Lib.Base Lib.GenTypes Gen.IgnoreGen Model.PyStr Model.Ignore Model.IgnoreSpec Model.IgnoreRun
+     Actual.IgnoreActual Proofs.IgnoreMain Proofs.IgnoreCor Proofs.IgnoreRules Proofs.IgnorePipes Proofs.IgnoreLines.
+
+(* 1. Main theorem.  For every quirk vector with all flags off, every abstract file of the domain (any number and mix of
+      same-line / next-line / block / file-level directives in either comment style, arbitrary code lines not containing the
+      word "ignore"), every code line v and every non-empty rule id r: the model suppresses (v, r) iff a directive whose scope
+      contains v names r (or the file matches a repository-level pattern). *)
+Theorem C04_suppression_exact : forall q repo a v r,
+  flags_off q -> file_ok a = true -> target_ok a v = true -> nonempty r = true ->
+  should_ignore q repo (render a) v r = spec repo a v r.
+Proof. exact exact_off. Qed.
+Print Assumptions C04_suppression_exact.
+
+(* 2. Confinement (partial: the full statement is 1).  Under ANY vector - in particular the one claimed for the current tree -
+      the same equality holds on every input that avoids the defect class of each flag that is on (Model/IgnoreSpec.v: avoids). *)
+Theorem C04_suppression_exact_partial : forall q repo a v r,
+  file_ok a = true -> target_ok a v = true -> nonempty r = true -> avoids q a v = true ->
+  should_ignore q repo (render a) v r = spec repo a v r.
+Proof. exact should_ignore_exact. Qed.
+Print Assumptions C04_suppression_exact_partial.
+
+(* 3. Each directive form removes exactly the violations of the named rules in its scope (one directive, other lines plain code). *)
+Theorem C04_same_line_exact : forall q pre c st n post v r, flags_off q ->
+  forallb is_plain pre = true -> forallb is_plain post = true ->
+  file_ok (pre ++ LSame c st n :: post) = true -> target_ok (pre ++ LSame c st n :: post) v = true -> nonempty r = true ->
+  should_ignore q false (render (pre ++ LSame c st n :: post)) v r = (v =? S (List.length pre)) && named (bracket_rules n) r.
+Proof. exact same_line_exact. Qed.
+Print Assumptions C04_same_line_exact.
+
+Theorem C04_next_line_exact : forall q pre ind st n post v r, flags_off q ->
+  forallb is_plain pre = true -> forallb is_plain post = true ->
+  file_ok (pre ++ LNext ind st n :: post) = true -> target_ok (pre ++ LNext ind st n :: post) v = true -> nonempty r = true ->
+  should_ignore q false (render (pre ++ LNext ind st n :: post)) v r = (v =? S (S (List.length pre))) && named (bracket_rules n) r.
+Proof. exact next_line_exact. Qed.
+Print Assumptions C04_next_line_exact.
+
+Theorem C04_block_exact : forall q pre ind st br n mid ind' st' post v r, flags_off q ->
+  forallb is_plain pre = true -> forallb is_plain mid = true -> forallb is_plain post = true ->
+  file_ok (pre ++ LStart ind st br n :: mid ++ LEnd ind' st' :: post) = true ->
+  target_ok (pre ++ LStart ind st br n :: mid ++ LEnd ind' st' :: post) v = true -> nonempty r = true ->
+  should_ignore q false (render (pre ++ LStart ind st br n :: mid ++ LEnd ind' st' :: post)) v r =
+  (S (List.length pre) <? v) && (v <=? S (List.length pre) + List.length mid) && named (start_rules br n) r.
+Proof. exact block_exact_scope. Qed.
+Print Assumptions C04_block_exact.
+
+Theorem C04_file_level_exact : forall q pre st n post v r, flags_off q ->
+  forallb is_plain pre = true -> forallb is_plain post = true ->
+  file_ok (pre ++ LFile st n :: post) = true -> target_ok (pre ++ LFile st n :: post) v = true -> nonempty r = true ->
+  should_ignore q false (render (pre ++ LFile st n :: post)) v r = (List.length pre <? 10) && named (bracket_rules n) r.
+Proof. exact file_level_directive_exact. Qed.
+Print Assumptions C04_file_level_exact.
+
+(* 4. Directives naming other rules, anywhere, change nothing. *)
+Theorem C04_other_rule_noop : forall q a v r, flags_off q -> file_ok a = true -> target_ok a v = true -> nonempty r = true ->
+  forallb (fun l => negb (line_names l r)) a = true -> should_ignore q false (render a) v r = false.
+Proof. exact unnamed_rule_untouched. Qed.
+Print Assumptions C04_other_rule_noop.
+
+(* 5. The # and // comment styles are interchangeable, line by line. *)
+Theorem C04_comment_style_interchangeable : forall q f repo a v r,
+  q_splitlines_unicode q = false -> q_next_line_hash_only q = false -> q_file_hash_only q = false ->
+  q_block_end_before q = false -> q_bare_line_unsupported q = false -> q_bare_file_unsupported q = false ->
+  q_start_rules_from_code q = false ->
+  file_ok a = true -> target_ok a v = true -> nonempty r = true ->
+  should_ignore q repo (render (map (restyle f) a)) v r = should_ignore q repo (render a) v r.
+Proof. exact style_interchangeable. Qed.
+Print Assumptions C04_comment_style_interchangeable.
+
+(* 6. Rule-name spellings: over the registry of rule ids found in the source, every documented spelling of a rule (full id,
+      linter prefix, prefix.*, deprecated alias with its prefix forms; lower, upper and mixed case) names it; no spelling of an
+      unrelated linter does; matching ignores letter case altogether; "*" names every rule. *)
+Theorem C04_rule_spellings_match : forallb (fun r => forallb (rule_matches r) (spellings r)) registry_rule_ids = true.
+Proof. exact rule_spellings_match. Qed.
+Print Assumptions C04_rule_spellings_match.
+
+Theorem C04_other_linters_do_not_match :
+  forallb (fun r => forallb (fun r' => negb (unrelated r r') || forallb (fun x => negb (rule_matches r x)) (spellings r'))
+                            registry_rule_ids) registry_rule_ids = true.
+Proof. exact other_linters_do_not_match. Qed.
+Print Assumptions C04_other_linters_do_not_match.
+
+Theorem C04_alias_names_only_its_rule :
+  forallb (fun kv => forallb (fun r => Bool.eqb (rule_matches r (fst kv)) (String.eqb r (snd kv))) registry_rule_ids) rule_id_aliases = true.
+Proof. exact alias_names_only_its_rule. Qed.
+Print Assumptions C04_alias_names_only_its_rule.
+
+Theorem C04_rule_matches_any_case : forall r r' x x', lower r = lower r' -> lower x = lower x' -> rule_matches r x = rule_matches r' x'.
+Proof. exact rule_matches_any_case. Qed.
+Print Assumptions C04_rule_matches_any_case.
+
+Theorem C04_star_names_all : forall r, rule_matches r "*" = true.
+Proof. exact star_names_all. Qed.
+Print Assumptions C04_star_names_all.
+
+(* 7. What the correspondence check evaluates (a fast path that skips lines without the key word) is the model. *)
+Theorem C04_judge_evaluates_model : forall c content qs,
+  results c content qs = map (fun x : query => let '(v, r, p) := x in suppressed (fst c) (if snd c then p else PShared) content v r) qs.
+Proof. exact results_is_model. Qed.
+Print Assumptions C04_judge_evaluates_model.
+
+(* 8. The pipeline table claimed per linter agrees with the generated list of packages that reference the shared parser. *)
+Theorem C04_pipeline_table_consistent :
+  forallb (fun p => smem p linter_packages && negb (smem p shared_parser_users)) (no_inline_support ++ own_line_check_only) = true
+  /\ forallb (fun p => smem p shared_parser_users) ["magic_numbers"; "print_statements"; "nesting"; "srp"; "performance"] = true
+  /\ forallb (fun p => uses_shared (pipeline_of p "py") && uses_shared (pipeline_of p "ts") && uses_shared (pipeline_of p "rs"))
+             ["magic_numbers"; "print_statements"; "nesting"; "srp"; "performance"] = true
+  /\ forallb (fun p => negb (uses_shared (pipeline_of p "py"))) (no_inline_support ++ own_line_check_only) = true.
+Proof. exact pipeline_table_consistent. Qed.
+Print Assumptions C04_pipeline_table_consistent.
+
+(* non-vacuity: a file of the domain with all four forms, both styles, a bare directive and spelled-out rule lists, on which the
+   specification suppresses some (line, rule) pairs and not others, and on which the ideal model computes exactly that *)
+Definition ex_file : list aline :=
+  [LFile Slashes (Names "DRY"); LPlain "import re"; LNext "" Hash (Names "nesting, srp.*"); LPlain "def f(a):";
+   LSame "    return 4242" Hash (Names "Magic-Numbers"); LStart "    " Slashes false (Names "print-statements");
+   LPlain "    print(a)"; LEnd "    " Slashes; LPlain "    print(a)"; LSame "x = 1" Slashes Bare].
+Example C04_nonvacuous :
+  file_ok ex_file = true /\ avoids ideal ex_file 7 = true
+  /\ map (fun vr => spec false ex_file (fst vr) (snd vr))
+         [(4, "nesting.excessive-depth"); (4, "magic-numbers.numeric-literal"); (5, "magic-numbers.numeric-literal"); (5, "nesting.excessive-depth");
+          (7, "improper-logging.print-statement"); (9, "improper-logging.print-statement"); (9, "dry.duplicate-code"); (10, "cqs")]
+     = [true; false; true; false; true; false; true; true]
+  /\ map (fun vr => should_ignore ideal false (render ex_file) (fst vr) (snd vr))
+         [(4, "nesting.excessive-depth"); (4, "magic-numbers.numeric-literal"); (7, "improper-logging.print-statement"); (9, "improper-logging.print-statement")]
+     = [true; false; true; false].
+Proof. vm_compute. repeat split; reflexivity. Qed.
